@@ -1088,8 +1088,6 @@ def collect_seq(ctx, s):
     e = stream_elem(sub, s, ivar)
     changed = []
     for root, v in sub.state.store.items():
-        if root[0] == 'L':
-            continue
         v0 = before.get(root)
         if v0 is None or v0 is v:
             continue
@@ -1116,8 +1114,6 @@ def collect_seq(ctx, s):
         nxt.append(it.read(sub2.state, root, p))
     # anything else changed in the second run?
     for root, v in sub2.state.store.items():
-        if root[0] == 'L':
-            continue
         v0 = head_store.get(root)
         if v0 is None or v0 is v:
             continue
